@@ -12,7 +12,7 @@ theorem stepF (s s' : St) (l : Lbl) (h : InvF s) (hB : InvB s) (hC : InvC s) (hD
   obtain ⟨h1, h2, h3⟩ := h
   have hbe := hB.busyEmpty
   have hsp := hD.seenPlaced
-  obtain ⟨c1, c2, c3, c4, c5, c6, c7⟩ := hC
+  obtain ⟨c1, c2, c3, c4, c5, c6, c7, c8⟩ := hC
   unfold placed at hsp
   unfold P2 P3 at *
   cases l <;> simp only [step] at hs
@@ -127,7 +127,7 @@ structure Inv (s : St) : Prop where
   f : InvF s
 
 theorem inv_init (cap maxB : Nat) (blocking : Bool) (hpos : 1 ≤ maxB) : Inv (init cap maxB blocking) := by
-  refine ⟨⟨?_, ?_⟩, ⟨hpos, ?_, ?_, ?_, ?_⟩, ⟨?_, ?_, ?_, ?_, ?_, ?_, ?_⟩, ⟨?_, ?_⟩, ⟨?_, ?_, ?_, ?_⟩, ⟨?_, ?_, ?_⟩⟩ <;>
+  refine ⟨⟨?_, ?_⟩, ⟨hpos, ?_, ?_, ?_, ?_⟩, ⟨?_, ?_, ?_, ?_, ?_, ?_, ?_, ?_⟩, ⟨?_, ?_⟩, ⟨?_, ?_, ?_, ?_⟩, ⟨?_, ?_, ?_⟩⟩ <;>
     simp [init, allIds, spansOf, handL] <;> omega
 
 theorem inv_step (s s' : St) (l : Lbl) (h : Inv s) (hs : step s l = some s') : Inv s' :=
